@@ -337,6 +337,7 @@ class LinePeer:
         self.lock = threading.Lock()
         self.partial = {}          # system -> [(fields, data)]
         self.complete = []         # (fields of first block, body, nblocks, generation) in completion order
+        self.completed_at = {}     # system -> time the last block of the request was acknowledged
         self.bad_blocks = []
         self.stray = []
         self.contention = 0
@@ -391,6 +392,7 @@ class LinePeer:
                 del self.partial[fields["system"]]
                 self.complete.append((blocks[0][0], b"".join(d for _, d in blocks), [f["block"] for f, _ in blocks],
                                       self.rig.pipe.generation))
+                self.completed_at[fields["system"]] = time.monotonic()
         self.rig.pipe.feed(bytes([wire.ACK]))
 
     def _send_block(self, raw):
@@ -454,7 +456,7 @@ def _secsi_history(ctx, inj, idx):
     rng = ctx.rng
     host = rng.random() < 0.5
     policy = rng.choice(["in-order", "reversed", "shuffled", "blocks-interleaved", "blocks-interleaved", "drop-some"])
-    t3 = 1.0 if policy == "drop-some" else 20.0
+    t3 = 3.0 if policy == "drop-some" else 20.0
     rig = SecsIRig(device_type=secsgem.common.DeviceType.HOST if host else secsgem.common.DeviceType.EQUIPMENT, t3=t3)
     peer = LinePeer(rig)
     in_callback = [0]
@@ -481,6 +483,8 @@ def _secsi_history(ctx, inj, idx):
     unsol_sent = []          # systems in the order their last block was put on the line
     replies = {}             # serial -> tag
     dropped = set()
+    asked_at = {}            # tag -> when the request had arrived completely
+    answered_by = {}         # tag -> when the last reply block of its round was on the line
     try:
         for cyc in range(cycles):
             n_before = len(peer.complete)
@@ -534,6 +538,7 @@ def _secsi_history(ctx, inj, idx):
                     continue
                 serial = next(serialc)
                 replies[serial] = tag
+                asked_at[tag] = peer.completed_at.get(f["system"], time.monotonic())
                 rbody = e5ref.encode(("B", tag + serial.to_bytes(4, "big") + bytes(rng.choice([0, 0, 250, 700]))))
                 streams.append([wire.secs1_block(wire.secs1_header(**h), d)
                                 for h, d in wire.secs1_split(0, not host, 2, False, 26, f["system"], rbody)])
@@ -572,6 +577,9 @@ def _secsi_history(ctx, inj, idx):
             if order and not peer.send_blocks([raw for raw, _ in order]):
                 ctx.violation("secsi:endpoint-does-not-accept-well-formed-blocks", {**base, "stray": peer.stray[:4], "naks": peer.naks})
                 return
+            now = time.monotonic()
+            for tag in asked_at:
+                answered_by.setdefault(tag, now)
             deadline = time.monotonic() + t3 + 10
             for t in ths:
                 t.join(max(0.1, deadline - time.monotonic()))
@@ -606,7 +614,12 @@ def _secsi_history(ctx, inj, idx):
         res = c.get("result")
         if res is None:
             if c["tag"] not in dropped:
-                ctx.violation("secsi:timely-reply-not-returned-to-requester", {**base, "tag": c["tag"].hex(), "size": c["size"]})
+                # only a reply that was on the line well within T3 of the request must have been returned
+                late = answered_by.get(c["tag"], 1e18) - asked_at.get(c["tag"], 0)
+                if late < t3 * 0.5:
+                    ctx.violation("secsi:timely-reply-not-returned-to-requester", {**base, "tag": c["tag"].hex(), "size": c["size"], "reply_after_s": round(late, 3)})
+                else:
+                    ctx.count("secsi.replies_not_timely_under_load")
             continue
         try:
             payload = bytes(e5ref.decode_all(res["body"])[1])
